@@ -284,7 +284,7 @@ def entry_slot(cmd, seed):
     return zlib.crc32(("%s|%d|entry-sp" % (cmd, seed)).encode()) % 64
 
 
-def judge(cmd, ans, seed):
+def judge(cmd, ans, seed, slot=None):
     """Returns list of (key, description)."""
     c = cmd.split()
     arch, plat, cc, nargs, attrs = [int(x) for x in c[1:6]]
@@ -317,7 +317,7 @@ def judge(cmd, ans, seed):
         m.regs[3][i] = rng.getrandbits(64)
     natural = r["natural"]
     # entry sp: exactly the promised alignment (natural, minus the return address), any residue modulo larger alignments
-    sp0 = (0x7FFF0000 if arch == 0 else 0x7FFFFFFF0000) - natural * entry_slot(cmd, seed) - ras
+    sp0 = (0x7FFF0000 if arch == 0 else 0x7FFFFFFF0000) - natural * (entry_slot(cmd, seed) if slot is None else slot) - ras
     m.regs[0][spid] = sp0
     ra = rng.getrandbits(8 * ws - 1) | 1
     if arch == 2:
